@@ -246,6 +246,30 @@ def run(ck):
             r = rules.enforcement(f, bi)
             ck.ob("ERR", p, "charge-propagated#%d" % n, rules.enforced_ok(r), r["status"] + ": " + r["detail"], f.loc(bi))
         work = f.calls(WORK)
+        # any call that is handed a slice of linear memory of contract-chosen length does work proportional to it
+        memv2 = [l for l, nm2 in f.names().items() if nm2 == "memory" and l <= f.argc]
+        if memv2:
+            seen_w = set(b for (b, _) in work)
+            for (bi, t) in f.calls():
+                if bi in seen_w or callee_match(t, r"ops::Index(Mut)?::index(_mut)?$|ops::Try::branch$|FromResidual|ops::Deref|::len$|" + TICK.pattern):
+                    continue
+                for a in t["args"]:
+                    oa = f.origins(a)
+                    idxs = [x for x in oa if x[0] == "call" and re.search(r"ops::Index(Mut)?::index(_mut)?$", x[1])]
+                    if not idxs:
+                        continue
+                    it = f.term(idxs[0][2])
+                    if ("arg", memv2[0]) not in f.origins(it["args"][0]):
+                        continue
+                    rb = rules.range_bounds(f, it["args"][1])
+                    if rb is None or rb[2] is None:
+                        continue        # not a range, or open-ended (`memory[start..]`): the callee decides how much it writes
+                    ls, le = (rules.lin(f, rb[1]) if rb[1] is not None else ({}, 0)), (rules.lin(f, rb[2]) if rb[2] is not None else None)
+                    const_len = ls is not None and le is not None and ls[0] == le[0] and 0 <= le[1] - ls[1] <= CONST_COPY_MAX
+                    if not const_len:
+                        work.append((bi, t))
+                        seen_w.add(bi)
+                        break
         for n, (bi, t) in enumerate(work):
             nm = t["f"]["path"].split("::")[-1]
             dominated = any(f.dominates(tb, bi) and tb != bi for (tb, _) in ticks)
